@@ -262,6 +262,15 @@ class CoseSecOpCtx:
     def check_secblk(self) -> bool:
         ''' Initial consistency check of :py:attr:`sec_blk`
         '''
+        targets = self.sec_blk.payload.targets
+        if not targets:
+            # RFC 9172 requires at least one target, none would verify vacuously
+            LOGGER.error('No security targets')
+            return False
+        if len(self.sec_blk.payload.results) != len(targets):
+            LOGGER.error('Mismatched number of targets and results')
+            return False
+
         type_ids = [param.type_code for param in self.sec_blk.payload.parameters]
         if len(set(type_ids)) != len(type_ids):
             LOGGER.error('Duplicate parameter IDs')
